@@ -386,6 +386,57 @@ pub fn structural(orig: &[u8], rng: &mut Rng) -> Mutation {
   }
   m
 }
+/// Fault kind n — nesting bomb (checksum valid): one constant is re-typed as a set (or table) and
+/// pointed at a run of N "matrix of" / "set of" kind tags appended to the constant blob, so that the
+/// kind decoder nests once per byte. The loader and the decoder must answer (an error is fine) on
+/// the stack a real caller has; the trial therefore runs on a thread with an 8 MiB stack.
+pub fn nesting_bomb(orig: &[u8], rng: &mut Rng) -> Mutation {
+  let fl = orig.len();
+  let tbl = header_field(orig, "const_tbl_off") as usize;
+  let cnt = header_field(orig, "const_count") as usize;
+  let blob = header_field(orig, "const_blob_off") as usize;
+  let blen = header_field(orig, "const_blob_len") as usize;
+  let toff = header_field(orig, "types_off") as usize;
+  if cnt == 0 || tbl + 24 * cnt > fl || blob + blen + 4 > fl || toff + 4 > fl { return structural_fallback(orig, rng); }
+  let i = rng.usize(cnt);
+  let type_id = rd(orig, tbl + 24 * i, 4) as usize;
+  let tcnt = rd(orig, toff, 4) as usize;
+  if type_id >= tcnt { return structural_fallback(orig, rng); }
+  let mut p = toff + 4;
+  for _ in 0..type_id { if p + 12 > fl { break; } let bl = rd(orig, p + 8, 4) as usize; p += 12 + bl; }
+  if p + 12 > fl { return structural_fallback(orig, rng); }
+  let n = *rng.pick(&[2_000usize, 20_000, 120_000]);
+  let tag_byte = *rng.pick(&[21u8, 21, 29]);
+  let container = *rng.pick(&[45u64, 45, 42]); // TypeTag::Set, TypeTag::Table
+  let ins = blob + blen;
+  let pad = (8 - blen % 8) % 8;
+  let delta = pad + n;
+  let mut out = Vec::with_capacity(fl + delta);
+  out.extend_from_slice(&orig[..ins]);
+  out.extend(std::iter::repeat(0u8).take(pad));
+  out.extend(std::iter::repeat(tag_byte).take(n));
+  out.extend_from_slice(&orig[ins..]);
+  let put = |out: &mut Vec<u8>, off: usize, v: u64, w: usize| { for (k, b) in le(v, w).into_iter().enumerate() { out[off + k] = b; } };
+  let hoff = |name: &str| HEADER_FIELDS.iter().find(|(f, _, _)| *f == name).map(|(_, o, _)| *o).unwrap();
+  put(&mut out, hoff("const_blob_len"), (blen + delta) as u64, 8);
+  for f in ["symbols_off", "instr_off", "dict_off"] { let old = header_field(orig, f) as usize; if old >= ins { put(&mut out, hoff(f), (old + delta) as u64, 8); } }
+  put(&mut out, p, container, 2);
+  put(&mut out, tbl + 24 * i + 5, 1, 1);                      // align 1
+  put(&mut out, tbl + 24 * i + 8, (blen + pad) as u64, 8);    // offset
+  put(&mut out, tbl + 24 * i + 16, n as u64, 8);              // length
+  let mut m = Mutation::new("n", format!("const[{}] re-typed as {} and pointed at {} nested kind tags {:#04x} appended to the constant blob", i, if container == 45 { "set" } else { "table" }, n, tag_byte));
+  m.replace_all = Some(out);
+  m.fix_crc = true;
+  m
+}
+
+/// `feed` on a thread with the stack a real caller has (the main thread's 8 MiB), for the fault
+/// kinds whose point is recursion depth. A stack overflow kills the worker; the supervisor
+/// attributes the death to the run and confirms it from the black box.
+pub fn feed_on_small_stack(bytes: Vec<u8>, hash_seed: u64) -> FeedResult {
+  let h = std::thread::Builder::new().stack_size(8 << 20).spawn(move || { crate::hashseed::set_thread_hash_seed(hash_seed); feed(&bytes, None) }).expect("spawn small-stack consumer");
+  match h.join() { Ok(r) => r, Err(p) => FeedResult { fed: Fed::LoaderPanicked(crate::hashseed::panic_message(&p), String::new()), largest_alloc: 0 } }
+}
 fn structural_fallback(orig: &[u8], rng: &mut Rng) -> Mutation {
   let (name, off, w) = *rng.pick(&HEADER_FIELDS[1..]);
   let old = rd(orig, off, w);
@@ -713,6 +764,7 @@ pub fn run(seed: u64, k: u64, corpus: &std::sync::Arc<Vec<(String, String)>>, th
   let io_trials = pl.io_trials;
   let via_file_dir: Option<String> = if pl.via_file { Some(format!("/dev/shm/mechsim-{}", std::process::id())) } else { None };
   let stored2 = stored.clone();
+  let hs_consumer = pl.hs_consumer;
   let consumer = crate::hashseed::on_node_thread(pl.hs_consumer, move || {
     let bytes = stored2;
     let mut counters: BTreeMap<String, u64> = BTreeMap::new();
@@ -733,7 +785,7 @@ pub fn run(seed: u64, k: u64, corpus: &std::sync::Arc<Vec<(String, String)>>, th
         let j = json!({"world": "W3", "program": prog_name, "program_text": prog_text, "mutation": m, "bytes_hex": hex(&damaged)});
         std::fs::write(p, j.to_string()).ok();
       }
-      let fr = feed(&damaged, Some(&bytes));
+      let fr = if m.kind == "n" { feed_on_small_stack(damaged.clone(), hs_consumer) } else { feed(&damaged, Some(&bytes)) };
       bump(counters, &format!("fault:{}", m.kind), 1);
       bump(counters, "steps", 1);
       match &fr.fed {
@@ -764,6 +816,8 @@ pub fn run(seed: u64, k: u64, corpus: &std::sync::Arc<Vec<(String, String)>>, th
       };
       trial(m, &mut counters, &mut violations, &mut dig);
     }
+    // one nesting bomb per file (fault kind n)
+    if trials > 0 { let m = nesting_bomb(&bytes, &mut rng); trial(m, &mut counters, &mut violations, &mut dig); }
     for (n, c) in rejected_by { bump(&mut counters, &format!("reach:rejected-by:{}", n), c); }
     // fault kind i: read-time faults between the medium and the real loader (hook H1)
     let mut io_violations: Vec<(Violation, crate::w3io::ReadFaults, Vec<u8>)> = vec![];
